@@ -2,9 +2,9 @@ import QM.Conv
 import QM.Parser
 namespace Cv
 
-def suffixOf (ty : Str) : Str :=
-  if ty == s "volume" then s "-volume" else if ty == s "network" then s "-network" else if ty == s "image" then s "-image"
-  else if ty == s "build" then s "-build" else if ty == s "pod" then s "-pod" else []
+def upper (x : Str) : Str := x.map Char.toUpper
+/-- service-name suffix per unit type, from the `get_*_service_name` functions of quadlet/mod.rs (extracted) -/
+def suffixOf (ty : Str) : Str := (Gen.serviceSuffix.lookup (upper ty ++ s "_SECTION")).getD []
 def sectionOf (ty : Str) : Str :=
   if ty == s "volume" then s "Volume" else if ty == s "network" then s "Network" else if ty == s "image" then s "Image"
   else if ty == s "build" then s "Build" else if ty == s "pod" then s "Pod" else if ty == s "kube" then s "Kube" else s "Container"
